@@ -1,1 +1,127 @@
-// placeholder
+//! A runtime-configurable type universe: `Node<I>` implements `TypeInfo` by reading the description
+//! of node `I` from a thread-local, so TLC-generated or random type graphs (cycles, aliases, every
+//! definition kind) can be loaded at run time and registered with the real `Registry`.
+//!
+//! A *spelling* `{t, w}` names node `t` through wrapper `w`:
+//!   0 `Node<t>`  1 `Box<Node<t>>`  2 `&'static Node<t>`  3 `Rc<Node<t>>`  4 `Arc<Node<t>>`
+//!   5 `&'static mut Node<t>`  6 `PhantomData<Node<t>>` (identity: the shared phantom identity)
+//!   7 `Box<Rc<Node<t>>>`  8 `&'static Box<Node<t>>`  (wrappers of wrappers)
+use scale_info::{
+    form::MetaForm, meta_type, Field, MetaType, Path, Type, TypeDef, TypeDefArray,
+    TypeDefBitSequence, TypeDefCompact, TypeDefComposite, TypeDefSequence, TypeDefTuple,
+    TypeDefVariant, TypeInfo, TypeParameter, Variant,
+};
+use serde_json::{json, Value};
+use std::cell::RefCell;
+use std::marker::PhantomData;
+use std::rc::Rc;
+use std::sync::Arc;
+
+pub const MAX_NODES: usize = 12;
+pub const PHANTOM_W: u64 = 6;
+
+pub struct Node<const I: usize>;
+
+thread_local! {
+    static UNIVERSE: RefCell<Vec<Value>> = RefCell::new(Vec::new());
+    static LOG: RefCell<Vec<Value>> = RefCell::new(Vec::new());
+}
+
+pub fn load(info: &Value) {
+    UNIVERSE.with(|u| *u.borrow_mut() = info.as_array().unwrap().clone());
+}
+pub fn take_log() -> Vec<Value> {
+    LOG.with(|l| std::mem::take(&mut *l.borrow_mut()))
+}
+pub fn log(v: Value) {
+    LOG.with(|l| l.borrow_mut().push(v));
+}
+
+impl<const I: usize> TypeInfo for Node<I> {
+    type Identity = Self;
+    fn type_info() -> Type {
+        log(json!({"ev": "Eval", "t": I}));
+        let v = UNIVERSE.with(|u| u.borrow()[I].clone());
+        build(&v)
+    }
+}
+
+macro_rules! table {
+    ($($i:literal),*) => {
+        /// MetaType of spelling (t, w).
+        pub fn meta(t: usize, w: u64) -> MetaType {
+            match (t, w) {
+                $(
+                    ($i, 0) => meta_type::<Node<$i>>(),
+                    ($i, 1) => meta_type::<Box<Node<$i>>>(),
+                    ($i, 2) => meta_type::<&'static Node<$i>>(),
+                    ($i, 3) => meta_type::<Rc<Node<$i>>>(),
+                    ($i, 4) => meta_type::<Arc<Node<$i>>>(),
+                    ($i, 5) => meta_type::<&'static mut Node<$i>>(),
+                    ($i, 6) => meta_type::<PhantomData<Node<$i>>>(),
+                    ($i, 7) => meta_type::<Box<Rc<Node<$i>>>>(),
+                    ($i, 8) => meta_type::<&'static Box<Node<$i>>>(),
+                )*
+                _ => panic!("no spelling ({t},{w})"),
+            }
+        }
+    };
+}
+table!(0, 1, 2, 3, 4, 5, 6, 7, 8, 9, 10, 11);
+
+pub fn sp(v: &Value) -> MetaType {
+    meta(v["t"].as_u64().unwrap() as usize, v["w"].as_u64().unwrap())
+}
+fn s(v: &Value) -> &'static str {
+    crate::leak(v.as_str().unwrap())
+}
+fn ss(v: &Value) -> Vec<&'static str> {
+    v.as_array().unwrap().iter().map(s).collect()
+}
+fn os(v: &Value) -> Option<&'static str> {
+    v.as_array().unwrap().first().map(s)
+}
+pub fn mfield(v: &Value) -> Field<MetaForm> {
+    Field::new(os(&v["name"]), sp(&v["ty"]), os(&v["tn"]), ss(&v["docs"]))
+}
+fn mfields(v: &Value) -> Vec<Field<MetaForm>> {
+    v.as_array().unwrap().iter().map(mfield).collect()
+}
+pub fn mvariant(v: &Value) -> Variant<MetaForm> {
+    Variant::new(s(&v["name"]), mfields(&v["fields"]), v["index"].as_u64().unwrap() as u8, ss(&v["docs"]))
+}
+pub fn mparam(p: &Value) -> TypeParameter<MetaForm> {
+    TypeParameter::new(s(&p["name"]), p["ty"].as_array().unwrap().first().map(sp))
+}
+
+/// Build the compile-time-form `Type` a universe entry describes. Uses raw constructors / public
+/// fields only (no builder), so nothing is filtered: the universe says exactly what `type_info()` is.
+pub fn build(v: &Value) -> Type<MetaForm> {
+    let d = &v["def"];
+    let def: TypeDef<MetaForm> = match d["tag"].as_str().unwrap() {
+        "composite" => TypeDefComposite::new(mfields(&d["fields"])).into(),
+        "variant" => TypeDefVariant::new(d["variants"].as_array().unwrap().iter().map(mvariant)).into(),
+        "sequence" => TypeDefSequence::new(sp(&d["ty"])).into(),
+        "array" => TypeDefArray::new(d["len"].as_u64().unwrap() as u32, sp(&d["ty"])).into(),
+        "tuple" => TypeDefTuple::<MetaForm> { fields: d["tys"].as_array().unwrap().iter().map(sp).collect() }.into(),
+        "primitive" => crate::proj::prim_of(d["prim"].as_str().unwrap()).into(),
+        "compact" => TypeDefCompact::new(sp(&d["ty"])).into(),
+        "bitsequence" => {
+            TypeDefBitSequence::<MetaForm> { bit_store_type: sp(&d["store"]), bit_order_type: sp(&d["order"]) }.into()
+        }
+        t => panic!("tag {t}"),
+    };
+    Type::new(
+        Path::from_segments_unchecked(ss(&v["path"])),
+        v["params"].as_array().unwrap().iter().map(mparam).collect::<Vec<_>>(),
+        def,
+        ss(&v["docs"]),
+    )
+}
+
+/// The universe entry of the shared phantom identity (what `PhantomData<T>::type_info()` returns).
+pub fn phantom_info() -> Value {
+    // its docs go through the feature-gated `docs()` setter
+    let docs: Vec<&str> = if cfg!(feature = "docs") { vec!["PhantomData placeholder, this type should be filtered out"] } else { vec![] };
+    json!({"path": ["PhantomData"], "params": [], "def": {"tag": "composite", "fields": []}, "docs": docs})
+}
